@@ -9,6 +9,9 @@ CHECKS = {
  "C03": dict(cat="exploration", tech="TLA+ Pipeline.tla: TLC model check (safety+liveness) + TLC classification of observed call outcomes from bounded-exhaustive token strings, mutation and raw fuzzing",
    text="Pipeline.tla states the outcome protocol (every call returns; errors carry the failing stage's prefix; no panic/hang state). Every real Eval/Load/Call/Func call over bounded-exhaustive token strings (len<=3 quick, <=4 thorough, 60-token alphabet), token mutations/truncations of the repository's test inputs and seed programs, raw bytes, file trees incl. all import graphs on <=3 packages, and wrong-arity calls is observed with recover+watchdog and its (entry, options, outcome, prefix) class validated by TLC.",
    note="'all byte strings' is small-scope enumerated and sampled, not proved; hangs are detected by a 3 s watchdog; non-terminating scripts are cut by the verif instruction budget", ref="6/C03"),
+ "C04": dict(cat="model_checking", tech="TLA+ FixedWidth.tla: TLC-checked lemmas + TLC validation of table-shaped traces of real VM results (8-bit exhaustive, 32-bit boundary/random) per operator x syntactic position",
+   text="FixedWidth.tla defines Go's int8/uint8/int32/uint32 operators on limbs (TLC ints trap); its lemmas (range, division law, embedding of plain arithmetic, algebraic laws, fast = reference unsigned division) are checked exhaustively by TLC. One script function per (type, operator, syntactic position, constant) is compiled by the real compiler and called for all 8-bit operand pairs / 32-bit boundary and random values; the observed results and dynamic result types are validated line by line by TLC against the spec; native Go integer types calibrate it.",
+   note="float64 arithmetic is not yet in the table (DESIGN.md section 7); shift counts are non-negative values of the operand type; constant<<variable excluded; trusts TLC", ref="6/C04"),
 }
 NOT_YET = {}
 def main():
